@@ -397,16 +397,18 @@ Section Sim.
     destruct lv as [[n s|n i ms|kids|]|s]; simpl; try discriminate; try tauto.
     - (* class *)
       intros [HB HG] HS HA. destruct ms as [|ms0 ms']; [discriminate|]. inversion HS; subst subs. clear HS.
+      change ((fst ms0, LMeth (snd ms0)) :: map (fun ms : str * sig => (fst ms, LMeth (snd ms))) ms')
+        with (map (fun ms : str * sig => (fst ms, LMeth (snd ms))) (ms0 :: ms')) in HA.
       rewrite (assoc_map_snd LMeth) in HA.
       destruct (assoc m (ms0 :: ms')) as [s|] eqn:E; [|discriminate]. simpl in HA. inversion HA; subst lv'.
       destruct (negb (meth_names_ok i (ms0 :: ms')) || has_param s_subcommand i); [discriminate|].
-      destruct (check_fn_sig i) as [[]|]; [|discriminate]. simpl in HB.
+      destruct (check_fn_sig i) as [[]|]; [|discriminate]. cbn [bind] in HB.
       pose proof (assoc_In _ _ _ E) as EI.
       split.
       + simpl. split; [eapply check_meths_In; eauto|].
         rewrite forallb_forall in HG. specialize (HG _ EI). simpl in HG. apply negb_true_iff in HG. exact HG.
       + exists n. split.
-        * rewrite E. reflexivity.
+        * reflexivity.
         * intros n' i' ms'' Heq. inversion Heq; subst. split; auto. exists s. split; auto.
     - (* group *)
       intros [HB HG] HS HA. inversion HS; subst subs. clear HS.
